@@ -402,6 +402,28 @@ fn run_case_c0809(cx: &Ctx, key: &str, ec: &EvCase, mode: Mode) -> CaseOut {
     let mut vs = vec![];
     let mut tags = vec![];
     let mut detail = json!(null);
+    // the same events are reported when the caller did not ask for dense output (the root search has its own
+    // interpolant then); contexts without a given first step, where no other option asks for one either
+    if mode == Mode::C08 && cx.cfg.first_step.is_none() {
+        let mut c2 = c.clone();
+        c2.dense = false;
+        let r2 = run(&cx.prob, &c2);
+        out.events += r2.st.n_ode + r2.st.n_events;
+        match (&r.out, &r2.out) {
+            (Outcome::Ok(a), Outcome::Ok(b)) => {
+                let bits = |s: &Solution| -> Vec<Vec<u64>> { s.t_events.iter().map(|l| l.iter().map(|t| t.to_bits()).collect()).collect() };
+                if bits(a) != bits(b) || a.status != b.status {
+                    vs.push(("events-without-dense".into(), format!("without dense_output the run reports other events: {:?} ({:?}) vs {:?} ({:?}) with it", b.t_events, b.status, a.t_events, a.status)));
+                }
+                tags.push("events-without-dense");
+            }
+            _ => {
+                if r.outcome_name() != r2.outcome_name() {
+                    vs.push(("events-without-dense".into(), format!("without dense_output the run ends with {}, with it {}", r2.outcome_name(), r.outcome_name())));
+                }
+            }
+        }
+    }
     // a count of two or more on a function with a single root (t - c) is never reached: for the oracle that
     // function is an ordinary one
     let reaches = |e: &EventSpec| match (e.terminal, &e.kind) {
